@@ -14,7 +14,12 @@
 (*   [k|->"raise",exc,n,cause] [k|->"reraise"] [k|->"assert",n]                             *)
 (*   [k|->"if",n,body,orelse] [k|->"while",n,body,orelse] [k|->"for",n,count,body,orelse]   *)
 (*   [k|->"try",body,handlers:<<[types,bind,name,n,body]>>,orelse,final]                           *)
-(*   [k|->"with",items:<<[n,sup,er,xr,q]>>,body]   [k|->"call",f,n]                         *)
+(*   [k|->"with",items:<<[n,sup,er,xr,q,ev,tg,sx]>>,body]   [k|->"call",f,n]                *)
+(*     item: ev = kind of value __enter__ returns ("self","int","t0".."t3" = tuple of 0..3   *)
+(*     ints n, n+1, ..), tg = form of the `as` target ("" none, "name", "tup" (a, b), "lst"  *)
+(*     [a, b], "star" (a, *b), "tupst" (a, H.x), "attr" H.x, "sub" H[0], "slot" attribute of *)
+(*     an object without it, "idx" index outside a list), sx = exception class raised by the *)
+(*     recording holder H's store ("" = the store succeeds)                                  *)
 (* Recording alphabet:                                                                      *)
 (*   [e"t",n] tracer | [e"c",n,v] condition site n evaluated to v | [e"it",n] iterator of   *)
 (*   for-loop n created | [e"nx",n] its __next__ called | [e"mk",n] manager constructed |   *)
@@ -22,7 +27,8 @@
 (*   ("None",0 without) | [e"x",n,x,s] handler n bound exception (x,s) to its `as` name |   *)
 (*   [e"r",n,rv] call site n returned rv (0 = None) | final [e"end",k"value",rv] or         *)
 (*   [e"end",k"raise",x,s,c] (class, site, class of __cause__).                             *)
-(* Exception classes: BaseException > Exception > {E1 > E2, E3, AE, RE}; B1 < BaseException.*)
+(* Exception classes: BaseException > Exception > {E1 > E2, E3, AE, RE, TE, VE, AT, IE};    *)
+(* B1 < BaseException.  (TE/VE/AT/IE = TypeError/ValueError/AttributeError/IndexError.)    *)
 EXTENDS Naturals, Sequences, TLC
 
 Norm      == [k |-> "norm"]
@@ -92,8 +98,56 @@ CExc(c) == IF c.k = "raise" THEN c.x.e ELSE ""
 CtxCl(n, i) == IF n = 1 THEN "context-expr" ELSE IF i = 1 THEN "context-expr-first-of-many" ELSE "context-expr-later-item"
 EntCl(n, i) == IF n = 1 THEN "enter" ELSE IF i = 1 THEN "enter-first-of-many" ELSE "enter-later-item"
 
+
+\* ---------------------------------------------------------------- `with ITEM as TARGET`
+\* The value of __enter__ is bound to the target INSIDE the region the manager protects (Python: the statement is
+\* `mgr = ITEM; v = mgr.__enter__(); try: TARGET = v; SUITE ... `): a binding that raises is handed to this
+\* manager's __exit__ (and to the outer ones), which may swallow it; the later items and the body do not run.
+Ints(a, k) == CASE k = 0 -> <<>> [] k = 1 -> <<a>> [] k = 2 -> <<a, a + 1>> [] OTHER -> <<a, a + 1, a + 2>>
+IsSeqVal(ev) == ev \in {"t0", "t1", "t2", "t3"}
+SeqLen(ev) == CASE ev = "t1" -> 1 [] ev = "t2" -> 2 [] ev = "t3" -> 3 [] OTHER -> 0
+ValOf(ev, n) == IF IsSeqVal(ev) THEN Ints(n, SeqLen(ev)) ELSE <<n>>                 \* the value, flattened
+Unpacks(tg) == tg \in {"tup", "lst", "star", "tupst"}
+\* unpacking: a non-iterable value is a TypeError, a wrong length a ValueError, nothing is bound or stored then
+UnpackErr(tg, ev) == IF ~Unpacks(tg) THEN ""
+                     ELSE IF ~IsSeqVal(ev) THEN "TE"
+                     ELSE IF tg = "star" THEN (IF SeqLen(ev) >= 1 THEN "" ELSE "VE")
+                     ELSE IF SeqLen(ev) = 2 THEN "" ELSE "VE"
+Stores(tg) == tg \in {"attr", "sub", "tupst"}
+StoredVal(tg, ev, n) == IF tg = "tupst" THEN <<n + 1>> ELSE ValOf(ev, n)
+HasVars(tg) == tg \in {"name", "tup", "lst", "star", "tupst"}
+\* only evaluated when the binding succeeded
+BoundVars(tg, ev, n) == CASE tg = "name"            -> << ValOf(ev, n) >>
+                          [] tg \in {"tup", "lst"}  -> << <<n>>, <<n + 1>> >>
+                          [] tg = "star"            -> << <<n>>, IF SeqLen(ev) >= 1 THEN Ints(n + 1, SeqLen(ev) - 1) ELSE <<>> >>
+                          [] tg = "tupst"           -> << <<n>> >>
+                          [] OTHER                  -> <<>>
+
 RECURSIVE Blk(_, _, _, _, _), Block(_, _, _, _, _, _), Stmt(_, _, _, _), Stmt0(_, _, _, _), Loop(_, _, _, _, _),
-          Handlers(_, _, _, _, _, _), Enter(_, _, _, _, _), ExitAll(_, _, _, _, _, _, _)
+          Handlers(_, _, _, _, _, _), Enter(_, _, _, _, _), ExitAll(_, _, _, _, _, _, _), BoundEvents(_, _, _, _)
+
+\* binding the target of item m: [st, x]; x.e = "" when it succeeded
+Bind(env, m, st) ==
+  IF m.tg = "" \/ ~st.ok THEN [st |-> st, x |-> NoExc]
+  ELSE LET ue == UnpackErr(m.tg, m.ev)
+       IN IF ue # "" THEN [st |-> Dec5(st, "with", "as-target-raised", "", m.tg, ue), x |-> X(ue, 0, "None")]
+          ELSE IF m.tg = "slot" THEN [st |-> Dec5(st, "with", "as-target-raised", "", m.tg, "AT"), x |-> X("AT", 0, "None")]
+          ELSE IF m.tg = "idx" THEN [st |-> Dec5(st, "with", "as-target-raised", "", m.tg, "IE"), x |-> X("IE", 0, "None")]
+          ELSE IF Stores(m.tg)
+               THEN LET st1 == Emit(env, st, [e |-> "st", n |-> m.n, bv |-> StoredVal(m.tg, m.ev, m.n)], W("with", "as-target-store"))
+                    IN IF m.sx # ""
+                       THEN [st |-> Dec5([st1 EXCEPT !.b1 = @ \/ m.sx = "B1"], "with", "as-target-raised", "", m.tg, m.sx),
+                             x |-> X(m.sx, m.n, "None")]
+                       ELSE [st |-> st1, x |-> NoExc]
+          ELSE [st |-> st, x |-> NoExc]
+
+\* what the variables of the `as` targets hold when the body starts (every binding succeeded)
+BoundEvents(env, items, i, st) ==
+  IF i > Len(items) \/ ~st.ok THEN st
+  ELSE LET m == items[i]
+       IN BoundEvents(env, items, i + 1,
+                      IF HasVars(m.tg) THEN Emit(env, st, [e |-> "b", n |-> m.n, vs |-> BoundVars(m.tg, m.ev, m.n)], W("with", "as-bound-values"))
+                      ELSE st)
 
 \* a block slot of the statement at cx.p (ghost span B+ .. B- with the block's completion)
 Blk(env, b, slot, st, cx) ==
@@ -145,7 +199,8 @@ Handlers(env, hs, i, x, st, cx) ==
                ELSE r
        ELSE Handlers(env, hs, i + 1, x, st, cx)
 
-\* context expression i, then its __enter__, then item i+1: returns [st, c, entered]
+\* context expression i, then its __enter__, then the binding of its `as` target, then item i+1: returns
+\* [st, c, entered]; a manager whose __enter__ raised is not entered, one whose target binding raised is
 Enter(env, items, i, st, cx) ==
   IF i > Len(items) \/ ~st.ok THEN [st |-> st, c |-> Norm, entered |-> i - 1]
   ELSE LET m   == items[i]
@@ -154,7 +209,10 @@ Enter(env, items, i, st, cx) ==
        IN IF m.er # ""
           THEN [st |-> Ghost(env, Dec(st2, "with", "enter-raised"), "EF", cx.p, "with", ""),
                 c |-> Exc(X(m.er, m.n, "None")), entered |-> i - 1]
-          ELSE Enter(env, items, i + 1, st2, cx)
+          ELSE LET bd == Bind(env, m, st2)
+               IN IF bd.x.e # ""
+                  THEN [st |-> Ghost(env, bd.st, "BF", cx.p, "with", bd.x.e), c |-> Exc(bd.x), entered |-> i]
+                  ELSE Enter(env, items, i + 1, bd.st, cx)
 
 \* __exit__ of managers i..1, each with the completion pending at that point; inner = what an inner
 \* manager's exit did ("" nothing, "suppressed", "raised")
@@ -208,7 +266,7 @@ Stmt0(env, s, st, cx) ==
          LET en == Enter(env, s.items, 1, st, cx)
          IN IF en.c.k = "raise"
             THEN ExitAll(env, s.items, en.entered, en.st, en.c, "", cx)       \* only the managers already entered
-            ELSE LET rb == Blk(env, s.body, "body", en.st, cx)
+            ELSE LET rb == Blk(env, s.body, "body", BoundEvents(env, s.items, 1, en.st), cx)
                  IN ExitAll(env, s.items, Len(s.items), rb.st, rb.c, "", cx)
     [] s.k = "call" ->
          \* a new function: jumps do not cross it; a bare raise inside still sees the caller's handled exception
